@@ -47,7 +47,7 @@ func gsubOnly(ll []Lookup) bool {
 	for i := range ll {
 		for j := range ll[i].Subs {
 			switch ll[i].Subs[j].Kind {
-			case "p1", "p2", "pp1", "pp2", "mb", "unsup":
+			case "p1", "p2", "pp1", "pp2", "mb", "mm", "unsup":
 				return false
 			}
 		}
@@ -75,6 +75,7 @@ type caseResult struct {
 	impl     string
 	inDomain int
 	changed  int
+	known    int
 	fails    []failure
 }
 
@@ -131,15 +132,22 @@ func evalCase(c *Case) caseResult {
 	unsup := hasUnsup(c.LL)
 	gsub := gsubOnly(c.LL)
 	for i, seq := range c.Seqs {
-		ref, dom := Reference(c.LL, c.Gdef, c.Order, seq)
-		if unsup {
-			dom = false
-		}
+		ref, hardOK, div := ReferenceFull(c.LL, c.Gdef, c.Order, seq)
+		dom := hardOK && div == "" && !unsup
 		if !dom {
 			// outside the domain the outcome is not defined by the documented
-			// rules; the engine is still run (termination and panics on such
-			// inputs are the subject of C07)
+			// rules, or the engine is known to diverge from them (open
+			// findings): not compared with the model
 			parts[i] = "ood"
+			if hardOK && !unsup && div != "" {
+				// known divergence: report it under its own signature when the
+				// engine really differs from the specified outcome
+				res.known++
+				out, panicked := runImpl(c, seq)
+				if panicked || !sameSeq(out, ref) {
+					res.fails = append(res.fails, failure{seq, "engine: " + obsSx(out) + " specification: " + obsSx(ref), div})
+				}
+			}
 			continue
 		}
 		res.inDomain++
@@ -184,7 +192,7 @@ func RunCase(line string) (impl, fail, sig string, err error) {
 }
 
 type stats struct {
-	seqs, inDomain, changed int
+	seqs, inDomain, changed, known int
 }
 
 // add runs one case (a lookup list with a batch of sequences) and records it.
@@ -194,6 +202,7 @@ func add(run *vlib.Run, st *stats, c *Case, labels ...string) {
 	st.seqs += len(c.Seqs)
 	st.inDomain += r.inDomain
 	st.changed += r.changed
+	st.known += r.known
 	if r.inDomain == 0 {
 		labels = append(labels, "all-ood")
 	}
@@ -261,4 +270,5 @@ func Gen(run *vlib.Run, seed uint64, tier string) {
 	run.Extra["sequences"] = st.seqs
 	run.Extra["sequences_in_domain"] = st.inDomain
 	run.Extra["sequences_changed_by_lookups"] = st.changed
+	run.Extra["sequences_in_known_divergence_classes"] = st.known
 }
